@@ -3,7 +3,8 @@
    sequence_check, handle_logon/logout/sequence_reset/resend_request/test_request/heartbeat,
    retrans_callback, handle_outbound_reject, heartbeat_service, generate_*, send, send_batch,
    send_process, recover_seqnums), of FIXWriter::write/write_batch (pm_thread) and of the loop of
-   FIXReader::execute (pm_thread), INCLUDING the defects (F20, F21, F22, F25, F26, F27, F28 ...).
+   FIXReader::execute (pm_thread), INCLUDING the defects that are still in the code (F22, F25, F26, F27 ...;
+   F20, F21 and F28 were repaired in /repo: send_process_orig / neq_orig keep the old behaviour for witnesses).
    What is observable is emitted as events.  No proofs in this file. *)
 From Coq Require Import NArith ZArith List Bool.
 From F8 Require Import Sess.Bytes Sess.Msg Sess.Persist.
@@ -122,6 +123,10 @@ Definition pat_34 : bytes := [51;52;61].            (* "34=" *)
 Definition fmt2 (m1 a m2 b : bytes) : bytes := (m1 ++ colon_sp ++ a ++ m2 ++ colon_sp ++ b)%list.
 Definition fmt1 (m1 a : bytes) : bytes := (m1 ++ colon_sp ++ a)%list.
 
+(* SessionID::operator!= on (sender, target) pairs: the repaired one and the original (F28) *)
+Definition sid_neq (a_snd a_tgt b_snd b_tgt : bytes) : bool := negb (beq a_snd b_snd) || negb (beq a_tgt b_tgt).
+Definition neq_orig (a_snd a_tgt b_snd b_tgt : bytes) : bool := negb (beq a_snd b_snd) && negb (beq a_tgt b_tgt).
+
 Definition bool_field (v : option bytes) : bool :=
   match v with
   | Some (c :: _) => (c =? 89) || (c =? 121)
@@ -143,8 +148,11 @@ Definition out_events (buf : bytes) : list event :=
   let '(ms, rest) := frames buf in
   (map EOut ms ++ match rest with [] => [] | _ => [EOutRaw rest] end)%list.
 
-(* Session::send_process *)
-Definition send_process (now : Z) (s : sess) (m : msg) : bool * sess * list event :=
+(* Session::send_process.  orig = true: the code before the repairs d862447 (F21: the persister
+   received ptr, which points into the cleared batch buffer for the flushing message of a non-empty
+   buffer) and f813a59 (F20: the control record was always next_send + 1, whether or not the number
+   was then consumed); kept only for the ..._orig_refuted witnesses.  orig = false: the code as it is. *)
+Definition send_process_gen (orig : bool) (now : Z) (s : sess) (m : msg) : bool * sess * list event :=
   let asa := pr_asa (s_par s) in
   let is_dup0 := has_field T_PossDupFlag (m_hdr m) in
   let m1 := if has_field T_SenderCompID (m_hdr m) then m else add_hdr' sc T_SenderCompID (s_snd s) m in
@@ -174,22 +182,25 @@ Definition send_process (now : Z) (s : sess) (m : msg) : bool * sess * list even
            buffer keeps what was appended *)
         (false, (if appended then w_batch tosend s else s), [], [])
       else
-        (true, w_batch [] (w_last_sent now s), out_events tosend, (if appended then [] else enc))
+        (true, w_batch [] (w_last_sent now s), out_events tosend, (if appended && orig then [] else enc))
     else
       (true, w_batch (s_batch s ++ enc)%list s, [], enc) in
   let '(ok, s1, evs, ptr) := step in
   if negb ok then (false, s1, evs)
   else if is_dup then (true, s1, evs)
   else
+    let increment := (m_custom m =? 0) && negb (m_noinc m) && negb (beq (m_type m) mt_sequence_reset) in
     let per1 :=
       if p_attached (s_per s1) then
         let p0 := if is_admin sc (m_type m) then s_per s1 else p_put (s_per s1) (s_next_send s1) ptr in
-        p_put_ctrl p0 (s_next_send s1 + 1) (s_next_recv s1)
+        p_put_ctrl p0 (if increment || orig then s_next_send s1 + 1 else s_next_send s1) (s_next_recv s1)
       else s_per s1 in
     let s2 := w_per per1 s1 in
-    let s3 := if (m_custom m =? 0) && negb (m_noinc m) && negb (beq (m_type m) mt_sequence_reset)
-              then w_next_send (s_next_send s2 + 1) s2 else s2 in
+    let s3 := if increment then w_next_send (s_next_send s2 + 1) s2 else s2 in
     (true, s3, evs).
+
+Definition send_process : Z -> sess -> msg -> bool * sess * list event := send_process_gen false.
+Definition send_process_orig : Z -> sess -> msg -> bool * sess * list event := send_process_gen true.
 
 (* Session::send(Message*, destroy, custom_seqnum, no_increment) -> Connection::write -> FIXWriter::write *)
 Definition send (now : Z) (s : sess) (m : msg) (custom : N) (noinc : bool) : bool * sess * list event :=
@@ -335,8 +346,9 @@ Definition handle_logon (seqnum : N) (m : msg) : M bool :=
     (* SessionID id(beginStr, tci, sci) *)
     match s_role s with
     | Initiator =>
-      (* SessionID::operator!= is the conjunction of the two inequalities (F28) *)
-      if negb (beq tci (s_snd s)) && negb (beq sci (s_tgt s)) && pr_ec (s_par s) then
+      (* id != _sid: since ce3496a the negation of operator== (before: the conjunction of the two
+         inequalities, F28 -- see neq_orig) *)
+      if sid_neq tci sci (s_snd s) (s_tgt s) && pr_ec (s_par s) then
         modify stop ;;; set_state st_session_terminated ;;; ret false
       else
         enforce seqnum m ;;; set_state st_continuous ;;; ret true
